@@ -3,7 +3,9 @@
 //! The harness never judges: it builds Rust values from abstract descriptions, calls the
 //! real driver code and records what happened.
 mod abs;
+mod alloc;
 mod c01;
+mod c08;
 mod c16;
 mod c16_structs;
 mod c17;
@@ -11,6 +13,10 @@ mod carriers;
 
 use std::fs::File;
 use std::io::{BufRead, BufReader, BufWriter, Write};
+
+/// Counting allocator shared by every command (see alloc.rs and C08.md).
+#[global_allocator]
+static GLOBAL: alloc::Counting = alloc::Counting;
 
 static LAST_PANIC: std::sync::Mutex<String> = std::sync::Mutex::new(String::new());
 
@@ -25,6 +31,9 @@ const COMMANDS: &[(&str, &str, fn(&[String]) -> i32)] = &[
     ("c17-matrix", "<types.ndjson> <out.ndjson>", c17::cmd_matrix),
     ("c17-rollback", "<histories.ndjson> <out.ndjson>", c17::cmd_rollback),
     ("c16", "<cases.ndjson> <out.ndjson>", c16::cmd),
+    ("c08", "<in.ndjson> <out.ndjson> [--workers N]", c08::cmd_parent),
+    ("c08-worker", "(child of c08: input lines on stdin, output lines on stdout)", c08::cmd_worker),
+    ("c08-selftest", "", c08::cmd_selftest),
 ];
 
 fn usage() {
